@@ -1,6 +1,7 @@
 import AITB.Model.Proto
 import AITB.Model.Trie
 import AITB.Gen.C20
+import AITB.Model.IndexMap
 open AITB AITB.Trie
 
 /-! Driver for C20.  One protocol line = one whole history on one factor space:
@@ -285,6 +286,35 @@ def ctorLine : P String := do
   let v := v.diffIf (m != out) s!"Trie::Trie model={m} impl={out}"
   pure v.render
 
+/-- `imi <kind> <ids> <container> | fwd post arrow plus sub pluseq rev revpost minus minuseq dist total cmpWrong`:
+    every iterator access path of an `IndexMap` range against the model (`AITB.Model.IndexMap`; by `walk*_eq*` all paths
+    denote the listed entries, forwards or backwards) -/
+def imiLine : P String := do
+  let kind ← P.tok
+  let ids ← P.nats; let cont ← P.nats; P.bar
+  let fwd ← P.nats; let post ← P.nats; let arrow ← P.nats; let plus ← P.nats; let sub ← P.nats; let pluseq ← P.nats
+  let rev ← P.nats; let revpost ← P.nats; let minus ← P.nats; let minuseq ← P.nats; let dist ← P.nats
+  let total ← P.nat; let cmpWrong ← P.nat; P.eof
+  let r : AITB.IndexMap.Rng := ⟨ids, cont⟩
+  if !(ids.all (· < cont.length)) then pure "skip invalid_ids" else
+  let some? (l : List Nat) : List (Option Nat) := l.map some
+  let c := s!"IndexMapIterator<{kind}>"
+  let v : Verdict := { tag := if ids.length ≤ 1 then "imi trivial" else "imi" }
+  let v := v.failIf (some? fwd != AITB.IndexMap.walk r) s!"{c} preincrement_walk_wrong_entries ids={ids} impl={fwd}"
+  let v := v.failIf (some? post != AITB.IndexMap.walk r) s!"{c} postincrement_walk_wrong_entries ids={ids} impl={post}"
+  let v := v.failIf (some? arrow != AITB.IndexMap.walk r) s!"{c} arrow_wrong_entries ids={ids} impl={arrow}"
+  let v := v.failIf (some? plus != AITB.IndexMap.walkPlus r) s!"{c} plus_wrong_entries ids={ids} impl={plus}"
+  let v := v.failIf (some? sub != AITB.IndexMap.walkSub r) s!"{c} subscript_wrong_entries ids={ids} cont={cont} impl={sub}"
+  let v := v.failIf (some? pluseq != AITB.IndexMap.walkPlus r) s!"{c} pluseq_wrong_entries ids={ids} impl={pluseq}"
+  let v := v.failIf (some? rev != AITB.IndexMap.walkRev r) s!"{c} predecrement_walk_wrong_entries ids={ids} impl={rev}"
+  let v := v.failIf (some? revpost != AITB.IndexMap.walkRev r) s!"{c} postdecrement_walk_wrong_entries ids={ids} impl={revpost}"
+  let v := v.failIf (dist.map Int.ofNat != AITB.IndexMap.dists r) s!"{c} minus_does_not_move ids={ids} distances={dist}"
+  let v := v.failIf (some? minus != AITB.IndexMap.walkMinus r) s!"{c} minus_wrong_entries ids={ids} impl={minus}"
+  let v := v.failIf (some? minuseq != AITB.IndexMap.walkMinus r) s!"{c} minuseq_wrong_entries ids={ids} impl={minuseq}"
+  let v := v.failIf (total != ids.length) s!"{c} end_minus_begin_wrong impl={total} n={ids.length}"
+  let v := v.failIf (cmpWrong != 0) s!"{c} comparisons_or_differences_wrong count={cmpWrong}"
+  pure v.render
+
 def handle (toks : List String) : String :=
   let r := match toks with
     | "trie" :: rest => P.run trieLine rest
@@ -293,6 +323,7 @@ def handle (toks : List String) : String :=
     | "fmf" :: rest => P.run (fmapLine true) rest
     | "probe" :: rest => P.run probeLine rest
     | "ctor" :: rest => P.run ctorLine rest
+    | "imi" :: rest => P.run imiLine rest
     | _ => none
   r.getD "bad-op"
 
